@@ -317,10 +317,9 @@ func c06R3(c *Ctx, m *prattModel) {
 		}
 	}
 	// desugaring table
-	rw := p.LangFunc("(*Parser).rewriteCompundAssingment")
+	rw := findCompoundRewriter(p, m)
 	if rw == nil {
-		// tolerate a spelling fix of the helper's name: find the function building nested ExprBinary
-		c.undecided("R3", "desugar-table", "", "anchor (*Parser).rewriteCompundAssingment not found")
+		c.undecided("R3", "desugar-table", "", "no function reachable from the compound-assignment parselet maps the four compound operator tokens to their binary operators")
 		return
 	}
 	table, tpos, problem := tagSwitchTable(rw, m.TagNames)
@@ -380,6 +379,28 @@ func tagSwitchTable(fn *ssa.Function, tagNames map[int64]string) (map[string]str
 	}, ""
 }
 
+// findCompoundRewriter: the function, in the private cluster of a compound-assignment parselet, that
+// switches on the operator token and yields the binary operator (found by that shape, not by name).
+func findCompoundRewriter(p *Program, m *prattModel) *ssa.Function {
+	seen := map[*ssa.Function]bool{}
+	for _, tag := range assignTokens {
+		r := m.ByTag[tag]
+		if r == nil || r.Infix == nil || compoundOracle[tag] == "" {
+			continue
+		}
+		for _, g := range p.privateCluster(r.Infix) {
+			if seen[g] {
+				continue
+			}
+			seen[g] = true
+			if table, _, problem := tagSwitchTable(g, m.TagNames); problem == "" && len(table) >= 4 {
+				return g
+			}
+		}
+	}
+	return nil
+}
+
 func compoundShape(fn *ssa.Function) (bool, string) {
 	// find the two ExprBinary allocations
 	var allocs []*ssa.Alloc
@@ -408,11 +429,17 @@ func compoundShape(fn *ssa.Function) (bool, string) {
 		}
 		return v
 	}
-	params := fn.Params // p, left, right, opToken
-	if len(params) < 4 {
+	// the two operand parameters: the Expr-typed ones, in order (a receiver may or may not be there)
+	var operands []*ssa.Parameter
+	for _, prm := range fn.Params {
+		if isLangNamed(prm.Type(), "Expr") {
+			operands = append(operands, prm)
+		}
+	}
+	if len(operands) != 2 {
 		return false, "unexpected signature"
 	}
-	left, right := params[1], params[2]
+	left, right := operands[0], operands[1]
 	var outer, inner *ssa.Alloc
 	for _, a := range allocs {
 		rv := fieldStore(a, "Right")
@@ -817,9 +844,44 @@ func c06R4(c *Ctx, m *prattModel) {
 	}
 	g := r.Prefix
 	var exprCall *ssa.Call
-	for _, call := range callsIn(g) {
-		if staticCalleeIs(call, "(*lang.Parser).expression") {
-			exprCall, _ = call.(*ssa.Call)
+	findInner := func() {
+		exprCall = nil
+		for _, call := range callsIn(g) {
+			if staticCalleeIs(call, "(*lang.Parser).expression") {
+				exprCall, _ = call.(*ssa.Call)
+			}
+		}
+	}
+	findInner()
+	// the parselet may hand over to a helper of its own in tail position (`return p.expressionThen(RParen)`):
+	// the helper is judged instead, with its token-tag parameters bound to the constants passed
+	tagArg := map[*ssa.Parameter]int64{}
+	if exprCall == nil {
+		for _, rc := range returnsOf(g) {
+			res := effectiveResults(rc)
+			if len(res) == 0 {
+				continue
+			}
+			ex, ok := res[0].(*ssa.Extract)
+			if !ok {
+				continue
+			}
+			tc, ok := ex.Tuple.(*ssa.Call)
+			if !ok {
+				continue
+			}
+			h := tc.Call.StaticCallee()
+			if h == nil || !p.InLang(h) || len(h.Blocks) == 0 || h == g || len(h.Params) != len(tc.Call.Args) {
+				continue
+			}
+			for i, a := range tc.Call.Args {
+				if k, ok := constInt(a); ok {
+					tagArg[h.Params[i]] = k
+				}
+			}
+			g = h
+			findInner()
+			break
 		}
 	}
 	if exprCall == nil {
@@ -839,6 +901,11 @@ func c06R4(c *Ctx, m *prattModel) {
 			if tagsOfConsume(call)[rparen] {
 				closes = true
 			}
+			for prm := range tagParamsOfConsume(call) {
+				if k, ok := tagArg[prm]; ok && k == rparen {
+					closes = true
+				}
+			}
 		}
 	}
 	c.check(closes, "R4", "group-close", p.Pos(g.Pos()), "')' is required after the inner expression", "the grouping parselet does not require ')' after the inner expression")
@@ -851,6 +918,35 @@ func c06R4(c *Ctx, m *prattModel) {
 		}
 	}
 	c.check(okRet, "R4", "group-returns-inner", p.Pos(g.Pos()), "returns the inner node unchanged", "the grouping parselet does not return the inner node itself")
+}
+
+// tagParamsOfConsume: the parameters of the enclosing function passed as tags to a consume(tags...) call.
+func tagParamsOfConsume(call ssa.CallInstruction) map[*ssa.Parameter]bool {
+	out := map[*ssa.Parameter]bool{}
+	args := call.Common().Args
+	if len(args) < 2 {
+		return out
+	}
+	sl, ok := args[1].(*ssa.Slice)
+	if !ok {
+		return out
+	}
+	arr, ok := sl.X.(*ssa.Alloc)
+	if !ok {
+		return out
+	}
+	for _, r := range referrersOf(arr) {
+		if ia, ok := r.(*ssa.IndexAddr); ok {
+			for _, rr := range referrersOf(ia) {
+				if st, ok := rr.(*ssa.Store); ok {
+					if prm, ok := st.Val.(*ssa.Parameter); ok {
+						out[prm] = true
+					}
+				}
+			}
+		}
+	}
+	return out
 }
 
 // tagsOfConsume: the TokenTag constants passed to a consume(tags...) call.
